@@ -105,9 +105,9 @@ impl Engine for OpSim {
         let mut txs = Vec::new();
         let fault_run = rng.chance(1, 4);
         for _ in 0..n {
+            // (access lists and, from Isthmus, EIP-7702 authorization lists stay: both are
+            // OP Stack transaction features and both feed the gas refund the fee split uses)
             let mut tx = gen_tx(rng, &world);
-            tx.auth_list = None;
-            tx.access_list.clear();
             // the OP Stack has no type-3 transactions and a deposit (type 0x7E) has no blob
             // fields: a blob-carrying env is outside C33's domain (revm burns its blob fee as
             // on L1, which is no party of the five-way split) - see DESIGN.md section 0.3
@@ -121,6 +121,9 @@ impl Engine for OpSim {
             let system = deposit && !spec.is_enabled_in(SpecId::REGOLITH) && rng.chance(1, 3);
             let mut mint = None;
             if deposit {
+                // a deposit (type 0x7E) has neither an access list nor an authorization list
+                tx.auth_list = None;
+                tx.access_list.clear();
                 tx.gas_price = U256::ZERO;
                 tx.priority_fee = None;
                 if rng.chance(3, 4) {
